@@ -10,7 +10,8 @@ RULE = ("correspondence (model = extracted Coq lexer+parser+walk+API, every Rust
         "insertions/substitutions of valid texts, hand-written grammar negatives, nesting 1..300, arbitrary Unicode); "
         "oracle on the implementation: no PANIC / CRASH / HANG on any entry point; every ERR InvalidJson range lies inside "
         "the input on UTF-8 character boundaries and its fragment equals the input at that range; big inputs (100000 "
-        "brackets, multi-MB strings, 1.5 MB objects, 200000-element arrays) each in its own process under a 60 s hang guard "
+        "brackets, multi-MB strings, 1.5 MB objects, 200000-element arrays) each in its own process, on a 2 MiB stack (Rust's default "
+        "for a spawned thread: unbounded recursion is a crash), under a 60 s hang guard "
         "with count-free pass criterion 'returns a result line'; serde_json values nested to depth 127 through From<&Value>; "
         "recursion depth: the depth hook's maximal nesting of parse_cst/parse_rule/parse_member/parse_token frames = the model twin "
         "walk_depth on the text stream and on nests of 1..1000 levels, and <= 515 (the proved bound); value/merger/subset depth "
@@ -20,7 +21,7 @@ RULE = ("correspondence (model = extracted Coq lexer+parser+walk+API, every Rust
         "case; distinct = distinct case line")
 ASSUMPTIONS = ["the NUMBER of nested frames is proved bounded (772 parser / 515 walk) and the walk's is measured by a hook and compared with the model; "
                "the generated lelwel parser carries no hook (its depth is tied through the CST correspondence only)",
-               "stack size (bytes per frame), wall time and the allocator are runtime facts: validated by running (1 GiB harness thread, hang guard), not proved",
+               "stack size (bytes per frame), wall time and the allocator are runtime facts: validated by running (big inputs and depth probes on a 2 MiB thread stack, hang guard; the bulk correspondence runs on a 1 GiB stack), not proved",
                "texts reach the harness hex-encoded and must be valid UTF-8 (Rust &str); invalid UTF-8 cannot be passed to the API at all",
                "value path cost: count-based (hook counter), the twin vcalls is proved equal to the number of values (C05_value_cost_linear)"]
 
@@ -58,8 +59,8 @@ def run(ctx):
                                lambda l, r: r.startswith("ERR InvalidJson"))
     n_ranges = 0
     for t, l, r in zip(texts, lines, mi):
-        if r == "PANIC" or r.startswith("CRASH"):
-            ctx.fail("from_str panics", l, {"text": t[:200], "result": r})
+        if r in ("PANIC", "HANG") or r.startswith("CRASH"):
+            ctx.fail("from_str panics / does not return (%s)" % r[:12], l, {"text": t[:200], "result": r})
         bad = textlib.check_invalid_json(t, r)
         n_ranges += r.startswith("ERR InvalidJson")
         if bad:
@@ -77,8 +78,8 @@ def run(ctx):
     lines = ["from_sources_text" + "".join("\t" + hx(t) for t in s) for s in seqs]
     mi, _ = textlib.correspond(ctx, lines, "from_sources on text tuples", lambda l, r: True)
     for s, l, r in zip(seqs, lines, mi):
-        if r == "PANIC" or r.startswith("CRASH"):
-            ctx.fail("from_sources panics", l, {"texts": [x[:100] for x in s], "result": r})
+        if r in ("PANIC", "HANG") or r.startswith("CRASH"):
+            ctx.fail("from_sources panics / does not return (%s)" % r[:12], l, {"texts": [x[:100] for x in s], "result": r})
         if r.startswith("ERR InvalidJson") and not any(textlib.check_invalid_json(t, r) is None for t in s):
             ctx.fail("from_sources: InvalidJson range matches no source", l, {"result": r[:200]})
     # ---- is_superset / is_superset_checked
@@ -88,13 +89,17 @@ def run(ctx):
         lines += ["superset_text\t%s\t%s" % (sh, hx(t)), "superset_checked_text\t%s\t%s" % (sh, hx(t))]
     mi, _ = textlib.correspond(ctx, lines, "is_superset / is_superset_checked on shape x text", lambda l, r: True)
     for l, r in zip(lines, mi):
-        if r == "PANIC" or r.startswith("CRASH"):
-            ctx.fail("is_superset panics", l, r)
+        if r in ("PANIC", "HANG") or r.startswith("CRASH"):
+            ctx.fail("is_superset panics / does not return (%s)" % r[:12], l, r)
     # ---- big inputs: implementation only, one process each, hang guard
     big = {}
+    hangs = 0
     for name, t in big_inputs().items():
         for op in ("from_str", "superset_text\tA0(#0)"):
-            r, secs = textlib.run_guarded(vlib.HARNESS, op + "\t" + hx(t), 60)
+            if hangs >= 3:
+                break           # three stalled processes are enough evidence; do not spend an hour on the rest
+            r, secs = textlib.run_guarded(vlib.HARNESS, op + "\t" + hx(t), 60, stack_kb=2048)
+            hangs += r == "HANG"
             ctx.evaluations += 1
             big[name + ":" + op.split("\t")[0]] = [r[:60], round(secs, 2)]
             if r in ("PANIC", "HANG") or r.startswith("CRASH"):
@@ -125,8 +130,12 @@ def run(ctx):
     ctx.notes["walk_depth_max_observed"] = dmax
     fam = [0, 0, 0, 0]
     allt = deep + list(big_inputs().values())[:8]
+    hangs = 0
     for t in allt:
-        r, secs = textlib.run_guarded(vlib.HARNESS, "depth_all\t" + hx(t), 60)
+        if hangs >= 3:
+            break
+        r, secs = textlib.run_guarded(vlib.HARNESS, "depth_all\t" + hx(t), 60, stack_kb=2048)
+        hangs += r == "HANG"
         ctx.evaluations += 1
         if not r.startswith("D "):
             ctx.fail("depth probe does not return: " + r[:40], "depth_all\t<%d bytes starting %r>" % (len(t), t[:20]), r[:100])
